@@ -51,9 +51,14 @@ func semaAcquire(addr *uint32) {
 		st.mu.Lock()
 		for {
 			v = latomic.LoadUint32(addr)
-			if v != 0 && latomic.CompareAndSwapUint32(addr, v, v-1) {
-				st.mu.Unlock()
-				return
+			if v != 0 {
+				if latomic.CompareAndSwapUint32(addr, v, v-1) {
+					st.mu.Unlock()
+					return
+				}
+				// Lost a race for a non-zero count: retry. Sleeping here could
+				// miss the wake-up of the release that made the count non-zero.
+				continue
 			}
 			st.waiters++
 			st.cond.Wait(&st.mu)
